@@ -294,3 +294,14 @@ Example C03_stream_discharged_run :
    dec (session (blk_hc_linked sth) cctx_zero (Some (mkPrefs 4 0 1 0 0 1 9 1 0)) NoDict ops))
   = ((65%nat, 93), (58%nat, 93)).
 Proof. vm_compute. reflexivity. Qed.
+
+(* level 2 (LZ4MID): linked blocks, dictionaries and CDict through the LZ4MID stream model (Proofs/BlkInstMidLinked.v) *)
+From LZ4V Require Import Model.HcMidStream Proofs.BlkInstMidLinked Proofs.BlkFrameInstMid.
+Theorem C03_roundtrip_mid_stream_discharged : forall st, (forall n, morc_ok (st n)) ->
+  forall c0 po dk ms F X,
+  prefs_opt_ok po -> uncompressed_only_if_independent po ms -> len X < U64 ->
+  p_level (eff_prefs po) = 2 ->
+  session (blk_mid_linked st) c0 po dk ms = Some (F, X) ->
+  frame_decode spec_decode false (dict_of dk) F = Some (X, []).
+Proof. exact c03_roundtrip_mid_stream. Qed.
+Print Assumptions C03_roundtrip_mid_stream_discharged.
